@@ -168,10 +168,11 @@ class JobRec:
         self.loss_marks_total = 0
         self.reaped_later = False
         self.result_phase = None
+        self.multi_loss_ever = False
 
     def owners_unfinished(self):
         return {p['ack_proc'][0] for p in self.parts.values()
-                if p['ack_proc'] and not p['ready_proc']}
+                if p['ack_proc'] and not p['ready_proc'] and not p.get('lost_done')}
 
     def all_owners(self):
         return {p['ack_proc'][0] for p in self.parts.values() if p['ack_proc']}
@@ -1090,14 +1091,31 @@ class Sim:
             self.stat('size_checks')
         self.sample_all(allowed | {j.jid for j in must_lose})
         for j in self.jobs.values():
-            if j.kind == 'imap_u' and j.lost_mark and self.loss_reported(j) \
-                    and not j.finished:
-                j.lost_mark, j.must = None, None    # the next lost part is marked anew
+            if j.kind in ('imap', 'imap_u'):
+                j.multi_loss_ever = j.multi_loss_ever or self.multi_loss(j)
+                self.attribute_losses(j)
+                if j.lost_mark and self.loss_reported(j) and not j.finished:
+                    j.lost_mark, j.must = None, None    # the next lost part is marked anew
         for j in must_lose:
+            if j.kind in ('imap', 'imap_u') and j.lost_mark and not self.loss_reported(j) \
+                    and not [i for i in self.dead_parts(j)
+                             if j.parts[i]['ack_proc'][0] == j.lost_mark[2]]:
+                # the result of the part was on the wire and has been processed
+                # inside the grace period: nothing is lost
+                j.lost_mark, j.must = None, None
+                self.stat('imap_result_won_over_loss')
+                continue
+            if j.kind == 'imap' and j.lost_mark and not self.loss_reported(j):
+                # an ordered iterator can show the failure of part k only after
+                # parts 0..k-1: not observable yet, looked at again at the next pass
+                dp = self.dead_parts(j)
+                if dp and len(j.yielded) < dp[0]:
+                    self.stat('imap_loss_waits_for_earlier_parts')
+                    continue
             if not self.loss_reported(j):
                 self.viol({'C04', 'C01'}, 'loss_not_reported_after_grace_period',
                           {'job_kind': j.kind, 'ack_after_reap': j.ack_after_reap,
-                           'multi_loss': self.multi_loss(j)},
+                           'multi_loss': self.multi_loss(j) or j.multi_loss_ever},
                           job=j.jid, noticed=j.lost_mark[0],
                           now=now, T=j.T)
                 j.lost_mark = None    # report once
@@ -1119,16 +1137,42 @@ class Sim:
 
     def multi_loss(self, j):
         return sum(1 for p in j.parts.values()
-                   if p['ack_proc'] and not p['ready_proc'] and
+                   if p['ack_proc'] and not p['ready_proc'] and not p.get('lost_done') and
                    not self.by_pid[p['ack_proc'][0]].alive) > 1
+
+    def dead_parts(self, j):
+        """indices of accepted, unanswered parts whose worker is dead and whose
+        loss the consumer has not seen yet"""
+        return sorted(i for i, p in j.parts.items()
+                      if p['ack_proc'] and not p['ready_proc'] and not p.get('lost_done')
+                      and not self.by_pid[p['ack_proc'][0]].alive)
+
+    def attribute_losses(self, j):
+        """imap: which parts the loss items seen by the consumer stand for.  An
+        ordered iterator yields exactly one item per part, so position k is
+        part k; an unordered one names only the exit status."""
+        from billiard.common import human_status
+        if j.kind == 'imap':
+            for k, y in enumerate(j.yielded):
+                if y[0] in ('lost', 'term') and k in j.parts:
+                    j.parts[k]['lost_done'] = True
+            return
+        items = [y for y in j.yielded if y[0] in ('lost', 'term')]
+        done = sum(1 for p in j.parts.values() if p.get('lost_done'))
+        for y in items[done:]:
+            cand = self.dead_parts(j)
+            if not cand:
+                break
+            pick = next((i for i in cand if human_status(
+                self.by_pid[j.parts[i]['ack_proc'][0]].popen.returncode) in y[1]), cand[0])
+            j.parts[pick]['lost_done'] = True
 
     def is_resolved(self, j):
         if j.kind in ('apply', 'map'):
             return j.obs is not None
-        # imap: resolved = consumer saw the end, or (ordered) saw a loss item
-        if j.kind == 'imap_u':
-            return j.finished
-        return j.finished or any(y[0] in ('lost', 'term') for y in j.yielded)
+        # imap: resolved = the consumer saw the end (a lost part is one failing
+        # item; the iterator goes on with the remaining parts)
+        return j.finished
 
     def p_scan(self, interleave=False):
         """one pass of the time-limit scanner.  interleave=True: between the
@@ -1636,7 +1680,8 @@ class Sim:
                       'job_never_resolved',
                       {'job_kind': j.kind, 'send_failed': bool(j.send_failed),
                        'owner_died': owners_dead, 'ack_after_reap': j.ack_after_reap,
-                       'reaped_later': j.reaped_later, 'multi_loss': self.multi_loss(j)},
+                       'reaped_later': j.reaped_later,
+                       'multi_loss': self.multi_loss(j) or j.multi_loss_ever},
                       job=j.jid, parts=j.parts, yielded=j.yielded[-5:])
         # imap consumers: what was yielded must be the scripted outcomes
         for j in self.jobs.values():
@@ -1679,9 +1724,13 @@ class Sim:
         got = [y for y in j.yielded if y[0] in ('ok', 'exc')]
         lost = [y for y in j.yielded if y[0] in ('lost', 'term')]
         if j.kind == 'imap':
-            if got != want[:len(got)]:
+            # position k holds part k's own outcome, or the pool-made failure
+            # of part k (judged below), and the iterator goes on after either
+            seq = [y for y in j.yielded if y[0] in ('ok', 'exc', 'lost', 'term')]
+            if any(y[0] in ('ok', 'exc') and (k >= len(want) or y != want[k])
+                   for k, y in enumerate(seq)):
                 self.viol({'C02', 'C01'}, 'imap_items_out_of_order_or_wrong',
-                          job=j.jid, got=got[:10], want=want[:10])
+                          job=j.jid, got=seq[:10], want=want[:10])
         else:
             pool_ = list(want)
             for y in got:
@@ -1690,6 +1739,15 @@ class Sim:
                 else:
                     self.viol({'C02', 'C01'}, 'imap_unordered_item_not_from_this_job',
                               job=j.jid, item=y)
+                    break
+        if j.kind == 'imap':
+            for k, y in enumerate(j.yielded):
+                pk = j.parts.get(k)
+                if y[0] in ('lost', 'term') and pk is not None and not (
+                        pk['ack_proc'] and not self.by_pid[pk['ack_proc'][0]].alive):
+                    self.viol({'C04', 'C01'}, 'loss_reported_without_lost_owner',
+                              {'job_kind': j.kind, 'owners_finished_exited': False},
+                              job=j.jid, part=k, msg=y[1])
                     break
         if [y for y in lost if y[0] == 'term'] and \
                 not any(self.by_pid[p].job_terminated for p in j.all_owners()):
@@ -1704,9 +1762,12 @@ class Sim:
                       {'job_kind': j.kind, 'owners_finished_exited': True},
                       job=j.jid, msg=lost[0][1])
         if j.kind == 'imap_u':
-            dead_parts = sum(1 for p in j.parts.values()
-                             if p['ack_proc'] and not p['ready_proc'] and
-                             not self.by_pid[p['ack_proc'][0]].alive)
+            # every part yields one item: its own result or one pool-made failure;
+            # a failure item must stand for a part whose worker died and whose own
+            # result the consumer never got (results are unique per part)
+            dead_parts = sum(1 for i, p in j.parts.items()
+                             if p['ack_proc'] and not self.by_pid[p['ack_proc'][0]].alive
+                             and want[i] not in got)
             if len(lost) > dead_parts:
                 self.viol({'C04', 'C01'}, 'imap_loss_reported_more_than_parts_lost',
                           {'job_kind': j.kind}, job=j.jid, loss_items=len(lost),
